@@ -80,12 +80,12 @@ func ParserAllowed(w *World) (map[string]map[string]map[string]bool, error) {
 
 // cellOperator extracts the operator token the cell's line uses.
 type cellShape struct {
-	op        string // test operator / arithmetic operator as emitted
-	thenConst string
-	elseConst string
+	op               string // test operator / arithmetic operator as emitted
+	thenConst        string
+	elseConst        string
 	quotedL, quotedR bool
-	ok        bool
-	line      string
+	ok               bool
+	line             string
 }
 
 func bashCellShape(c CellResult) cellShape {
